@@ -288,14 +288,24 @@ func (e *Engine) callbackIteration(fr *Frame, st *State, ins ssa.Instruction, ke
 		env := e.invEnv(fr, s, encl)
 		return env
 	}
-	var invs []*Clause
+	var invs, conts, stops []*Clause
 	if cc != nil {
-		invs = cc.IterInvs
+		invs, conts, stops = cc.IterInvs, cc.IterCont, cc.IterStop
 	}
 	for i, inv := range invs {
 		g := envOf(st).evalBool(inv.E)
 		e.emit(&Obligation{Kind: "inv-init", Fn: fnKey, Label: fmt.Sprintf("callback-%s:%s", shortName(key), orStr(inv.Label, fmt.Sprint(i+1))),
 			PC: st.pc, Goal: g, Src: inv.Src, Line: inv.Line, Trace: st.trace})
+	}
+	// `continuing` clauses: hold while the iteration goes on (the callback ends it by returning false)
+	for i, inv := range conts {
+		g := envOf(st).evalBool(inv.E)
+		e.emit(&Obligation{Kind: "inv-init", Fn: fnKey, Label: fmt.Sprintf("callback-%s:continuing-%s", shortName(key), orStr(inv.Label, fmt.Sprint(i+1))),
+			PC: st.pc, Goal: g, Src: inv.Src, Line: inv.Line, Trace: st.trace})
+	}
+	boolResult := cfn.Signature.Results().Len() == 1 && kindOf(cfn.Signature.Results().At(0).Type()) == kBool
+	if (len(conts) > 0 || len(stops) > 0) && (!boolResult || len(invs) == 0) {
+		unsupp("continuing / stopped clauses need a callback that returns bool and at least one iteration invariant")
 	}
 	// forget what the callback may write
 	ws := newWriteSet()
@@ -321,6 +331,10 @@ func (e *Engine) callbackIteration(fr *Frame, st *State, ins ssa.Instruction, ke
 	if len(invs) > 0 {
 		// one arbitrary run of the callback from this state must re-establish the invariants
 		body := st.clone()
+		for _, inv := range conts {
+			// a run starts only while the iteration goes on
+			body.assume(envOf(body).evalBool(inv.E))
+		}
 		var cargs []Val
 		for i := 0; i < cfn.Signature.Params().Len(); i++ {
 			pt := cfn.Signature.Params().At(i).Type()
@@ -359,6 +373,30 @@ func (e *Engine) callbackIteration(fr *Frame, st *State, ins ssa.Instruction, ke
 				e.emit(&Obligation{Kind: "inv-step", Fn: fnKey, Label: fmt.Sprintf("callback-%s:%s", shortName(key), orStr(inv.Label, fmt.Sprint(i+1))),
 					PC: o.st.pc, Goal: g, Src: inv.Src, Line: inv.Line, Trace: o.st.trace})
 			}
+			if len(conts) > 0 || len(stops) > 0 {
+				goesOn := o.results[0].T
+				for i, inv := range conts {
+					g := envOf(o.st).evalBool(inv.E)
+					e.emit(&Obligation{Kind: "inv-step", Fn: fnKey, Label: fmt.Sprintf("callback-%s:continuing-%s", shortName(key), orStr(inv.Label, fmt.Sprint(i+1))),
+						PC: append(append([]*Term{}, o.st.pc...), goesOn), Goal: g, Src: inv.Src, Line: inv.Line, Trace: o.st.trace})
+				}
+				for i, inv := range stops {
+					g := envOf(o.st).evalBool(inv.E)
+					e.emit(&Obligation{Kind: "inv-step", Fn: fnKey, Label: fmt.Sprintf("callback-%s:stopped-%s", shortName(key), orStr(inv.Label, fmt.Sprint(i+1))),
+						PC: append(append([]*Term{}, o.st.pc...), Not(goesOn)), Goal: g, Src: inv.Src, Line: inv.Line, Trace: o.st.trace})
+				}
+			}
+		}
+		if len(conts) > 0 || len(stops) > 0 {
+			// after the call: the iteration ran out (every `continuing` clause holds) or a run ended it (every `stopped` clause holds)
+			var cs, ss []*Term
+			for _, inv := range conts {
+				cs = append(cs, envOf(st).evalBool(inv.E))
+			}
+			for _, inv := range stops {
+				ss = append(ss, envOf(st).evalBool(inv.E))
+			}
+			st.assume(Or(And(cs...), And(ss...)))
 		}
 	} else {
 		e.note("callback of " + key + " in " + fnKey + " has no iteration invariant: everything it may write is forgotten")
